@@ -90,6 +90,15 @@ CHECKS = {
              'encodings, source unchanged, later mutations of either side invisible to the other, same for extend()) is evaluated on real objects.',
         note='The model abstracts object identity to a sharing flag; actual identities are observed by the harness.',
         technique='Lean 4 proof (mutual structural induction) + differential correspondence incl. aliasing graph', ref='5/C11'),
+    'C13': dict(
+        text='Lean 4 theorems for the stages whose logic can hang or leak an exception: the dependency sort gives up after len+1 rotations '
+             'per position and reports self references and cycles; include processing reports cycles and missing files; the expression '
+             'evaluator is total and turns division by zero, negative and huge shifts and out-of-range values into designed errors; a '
+             'failing patch rule fails the script. The entry point itself is exercised by differential execution: prophyc.main() under an '
+             'interval timer on token- and structure-level corruptions of valid prophy / isar schemas, patch files, include cycles and '
+             'option combinations; a time-out or an internal exception type named by the property is a violation.',
+        note='partial: termination / exception-freedom of PLY, ElementTree and argparse on arbitrary text is outside the model (trusted base); for that part the differential run is the only evidence. Wall-clock bound %d s per input is a runtime fact.' % 10,
+        technique='Lean 4 proof over the modelled stages + differential execution of the real entry point', ref='5/C13'),
     'C14': dict(
         text='Lean 4 theorems over tables regenerated from the sources on every run (the yacc precedence tables of the prophy parser '
              'and of calc are equal and are exactly the levels of the model parser; every binop action applies the integer operator, '
